@@ -46,7 +46,9 @@ TIERS = {
              BundleModes=("none", "all", "first2")),
     ],
     "thorough": [
-        scen("exhaustive/1-section/full", 1, FULL, Dirs=ALL_DIRS, Setups=ALL_SETUPS, Pres=("none", "audio_video", "dc")),
+        scen("exhaustive/1-section/full", 1, FULL, Dirs=ALL_DIRS, Setups=ALL_SETUPS, Pres=("none", "audio_video"),
+             Compats=("Standard",), Muxes=(True,)),
+        scen("exhaustive/1-section/compat", 1, SMALL, Pres=("none", "audio", "dc")),
         scen("exhaustive/2-sections", 2, SMALL, Compats=("Standard",), Pres=("none",), Caps=("default", "pcmu"),
              Muxes=(True,), Dirs=("sendrecv",)),
         scen("random/1-6-sections", 6, FULL, sim=100000, Dirs=ALL_DIRS, Setups=ALL_SETUPS,
@@ -117,25 +119,48 @@ def record(ck, offers, tag, jobs):
     return out
 
 
+CHUNK = 40000
+
+
 def validate(ck, records, tag, label):
-    """Trace_Answer on the recorded triples; returns {i: verdict}."""
-    # TLC reads only what the relation needs (the SDP texts stay in the full record file)
-    slim = os.path.join(ck.dir, f"trace_{tag}.ndjson")
+    """Trace_Answer on the recorded triples (in chunks: TLC loads a whole trace file); returns {i: verdict}."""
+    verdicts = {}
     n = 0
-    with open(records) as f, open(slim, "w") as g:
+    chunk = []
+
+    def flush():
+        nonlocal chunk
+        if not chunk:
+            return
+        # TLC reads only what the relation needs
+        slim = os.path.join(ck.dir, f"trace_{tag}.ndjson")
+        with open(slim, "w") as g:
+            g.write("\n".join(chunk) + "\n")
+        verd = os.path.join(ck.dir, f"verdicts_{tag}.ndjson")
+        res = vlib.tlc("Trace_Answer", "Trace_Answer.cfg", tags=("VERDICT",), sinks={"VERDICT": verd}, workers=1,
+                       timeout=3000, env={"TRACE": slim}, tag=f"Trace_Answer_{tag}", seed_arg=False, heap="8g")
+        vlib.tlc_ok(res, "trace " + label)
+        ck.add_tlc(res, f"{label}: Trace_Answer")
+        got = vlib.read_ndjson(verd)
+        if len(got) != len(chunk):
+            raise vlib.ToolError(f"{label}: {len(got)} verdicts for {len(chunk)} records")
+        for v in got:
+            verdicts[v["i"]] = v
+        os.remove(slim)
+        os.remove(verd)
+        chunk = []
+
+    with open(records) as f:
         for line in f:
             r = json.loads(line)
             if r.get("type") == "tool_error":
                 raise vlib.ToolError(f"answer harness: {r}")
-            g.write(json.dumps({k: r[k] for k in ("i", "offer", "cfg", "answer", "accepted", "roundtrip_ok")},
-                               separators=(",", ":")) + "\n")
+            chunk.append(json.dumps({k: r[k] for k in ("i", "offer", "cfg", "answer", "accepted", "roundtrip_ok")},
+                                    separators=(",", ":")))
             n += 1
-    verd = os.path.join(ck.dir, f"verdicts_{tag}.ndjson")
-    res = vlib.tlc("Trace_Answer", "Trace_Answer.cfg", tags=("VERDICT",), sinks={"VERDICT": verd}, workers=1,
-                   timeout=3000, env={"TRACE": slim}, tag=f"Trace_Answer_{tag}", seed_arg=False)
-    vlib.tlc_ok(res, "trace " + label)
-    ck.add_tlc(res, f"{label}: Trace_Answer")
-    verdicts = {v["i"]: v for v in vlib.read_ndjson(verd)}
+            if len(chunk) >= CHUNK:
+                flush()
+    flush()
     if len(verdicts) != n:
         raise vlib.ToolError(f"{label}: {len(verdicts)} verdicts for {n} records")
     return verdicts
@@ -201,8 +226,8 @@ def classify(ck, records, verdicts, label, stats):
             case = {"offer": r["offer"], "cfg": r["cfg"], "prev": r.get("prev"), "scenario": label}
             for rule in v["failed"]:
                 for kind in sorted(kinds.get(rule, {"-"})):
-                    rec = {"rule": rule, "kind": kind, "case": case, "answer": r["answer"], "offer_sdp": r["offer_sdp"],
-                           "answer_sdp": r.get("answer_sdp"), "roundtrip": r.get("roundtrip") if rule == "RoundTrip" else None}
+                    rec = {"rule": rule, "kind": kind, "case": case, "answer": r["answer"],
+                           "roundtrip": r.get("roundtrip") if rule == "RoundTrip" else None}
                     ck.divergence(sig_of(rule, kind, r, v["ctx"]), rec)
 
 
@@ -227,7 +252,13 @@ def run(tier):
             for j, line in enumerate(f):
                 if j in (0, 700, 4000) and len(ck.cov["samples"]) < 6:
                     ck.cov["samples"].append(json.loads(line))
+                if j > 4000:
+                    break
+        for big in (offers, records):  # disk is limited: intermediate files are not kept
+            if os.path.getsize(big) > 50_000_000:
+                os.remove(big)
     check_witnesses(ck)
+    attach_texts(ck)
     ck.notes.append({"rules_exercised_on_accepted_records": stats.get("exercised", {})})
     if stats["roundtrip_reordered"]:
         ck.drift.append({"what": "parse(print(d)) equals d only up to the relative order of attributes with different "
@@ -252,6 +283,28 @@ def run(tier):
         "trusted: the harness' SDP renderer and abstraction (checked to be inverse on every offer), TLC",
     ]
     ck.finish()
+
+
+def attach_texts(ck):
+    """Re-run one example per violation signature with the SDP texts kept, for the replay files."""
+    seen, todo = set(), []
+    for sig, rec in ck.violations:
+        k = json.dumps(sig, sort_keys=True)
+        if k not in seen:
+            seen.add(k)
+            todo.append(rec)
+    if not todo:
+        return
+    todo = todo[:200]
+    op = os.path.join(ck.dir, "examples_offers.ndjson")
+    vlib.write_ndjson(op, [{"offer": r["case"]["offer"], "cfg": r["case"]["cfg"], "prev": r["case"].get("prev") or r["case"]["offer"]}
+                           for r in todo])
+    out = os.path.join(ck.dir, "examples_records.ndjson")
+    p = vlib.run_bin("answer", [op, out, "2"], timeout=600, env={"VERIF_KEEP_SDP": "1"})
+    if p.returncode == 0:
+        for rec, row in zip(todo, vlib.read_ndjson(out)):
+            rec["offer_sdp"] = row.get("offer_sdp")
+            rec["answer_sdp"] = row.get("answer_sdp")
 
 
 def check_witnesses(ck):
